@@ -56,6 +56,10 @@ def t_escape(T, tier, fn):
     q = '"' if fn == 'dump_str' else '`'
     esc = ZR.STR_ESC if fn == 'dump_str' else ZR.URI_ESC
     raw_ok = ~(CS.rng(0, 0x1f) | CS.of('\\', q))
+    bad = ZW.check_pipeline_shape(fn)
+    if bad:
+        _ob(T, '%s/homomorphism.per_character_pipeline' % fn, False, bad)
+        return
     try:
         E = ZW.compute_E(fn)
     except OutOfSubset as e:
